@@ -169,6 +169,19 @@ func (c *checker) run() int {
 			}
 		}
 		a := runBatch(c.prop, c.seed, c.tier, indices, workers, []int{1, 4, 16}, "a")
+		if a.cutShort {
+			// handlers keep blocking / nodes keep dying: each occurrence costs seconds, the verdict
+			// is there long before the batch would end
+			c.say("[dst] batch cut short after %d replaced nodes (blocked handlers) and %d node deaths: reporting what the %d executed runs showed", a.replaced, len(a.deaths), len(a.results))
+			c.collect(a)
+			c.handleDeaths(a)
+			c.agg.absorb(a, &runOutcome{results: map[int]*PlanResult{}, prior: map[int][]int{}})
+			c.runsDone = lo + len(a.results)
+			if len(c.newKeys) == 0 {
+				infra("handlers keep blocking / nodes keep dying (a C20 matter: run the C20 check); nothing attributable to %s was recorded in the %d runs executed: no verdict", c.prop, len(a.results))
+			}
+			break
+		}
 		b := runBatchV(c.prop, c.seed, c.tier, sub, w2, []int{16, 1, 4}, "b", true)
 		c.collect(a)
 		c.collect(b) // the order variants carry the same expectations
